@@ -72,11 +72,8 @@ def run_tlc(module, cfg=None, workdir=None, workers=1, env=None, timeout=1800,
     if workdir is None:
         raise ValueError("workdir required")
     os.makedirs(workdir, exist_ok=True)
-    meta = os.path.join(workdir, "meta_%s_%d" % (module, os.getpid()))
-    n = 0
-    while os.path.exists(meta + "_%d" % n):
-        n += 1
-    meta = meta + "_%d" % n
+    import uuid
+    meta = os.path.join(workdir, "meta_%s_%s" % (module, uuid.uuid4().hex[:12]))
     if gc_threads is None:
         gc_threads = 2 if workers == 1 else 4
     cmd = java_cmd(heap, gc_threads)
